@@ -3,6 +3,7 @@ package main
 import (
 	"bytes"
 	"context"
+	"encoding/base64"
 	"encoding/json"
 	"fmt"
 	"math"
@@ -359,6 +360,12 @@ func runC18(w *W) {
 				if err := json.Unmarshal(got, &backS); err != nil || backS != string(s) {
 					w.Failf("quote", map[string]string{"flavour": name}, "%s: EncodeString(%q) = %q does not parse back (%v)", name, clip(s, 100), clip(got, 150), err)
 				}
+			}
+			// base64 of the same bytes (the native encoder has a SIMD path per flavour), source flush against a guard page
+			bsrc := w.AllocData(s, pickIntNoTape(i+1, simrt.PlaceGuardEnd, simrt.PlaceHeap, simrt.PlaceGuardFront))
+			got = ijson.EncodeBase64(make([]byte, 0, caps[i]), bsrc.B)
+			if want := base64.StdEncoding.EncodeToString(s); string(got) != want {
+				w.Failf("base64", map[string]string{"flavour": name}, "%s: EncodeBase64 of %d bytes = %q, want %q", name, len(s), clip(got, 120), clip([]byte(want), 120))
 			}
 			w.Count("encoder_checks_" + name)
 		}
